@@ -408,6 +408,56 @@ theorem write_deadline_is_fresh (prev : Option Nat) (now writeWait : Nat) (h : 0
 
 theorem write_wait_in_tree : 0 < SdnsVerif.Gen.C11.tcp_write_wait_ms := by decide
 
+/-! ## the per-zone limiter: a refusal leaves nothing behind -/
+
+/-- **The zone limiter counts exactly the lookups in flight.**  For every
+sequence of lookups entering (admitted or shed) and admitted lookups
+returning, the bucket's counter equals the number of reservations still held
+and never exceeds the quota — so once the load stops (`held = 0`) the counter
+is zero again and the next client of the zone is admitted, however many
+lookups were shed before. -/
+theorem zone_limiter_counts_in_flight (perZone : Nat) (ops : List ZOp) :
+    let z := ops.foldl (ZL.step perZone) {}
+    z.count = z.held ∧ z.count ≤ perZone ∧ (z.held = 0 → 0 < perZone → (z.enter perZone).2 = true) := by
+  suffices h : ∀ (z : ZL), z.count = z.held → z.count ≤ perZone →
+      (ops.foldl (ZL.step perZone) z).count = (ops.foldl (ZL.step perZone) z).held ∧
+      (ops.foldl (ZL.step perZone) z).count ≤ perZone by
+    have := h {} rfl (Nat.zero_le _)
+    refine ⟨this.1, this.2, ?_⟩
+    intro h0 hp
+    have hc : (List.foldl (ZL.step perZone) {} ops).count = 0 := by rw [this.1]; exact h0
+    simp only [ZL.enter, hc]
+    have : ¬ (0 + 1 > perZone) := by omega
+    simp [this]
+  induction ops with
+  | nil => intro z h1 h2; exact ⟨h1, h2⟩
+  | cons o os ih =>
+    intro z h1 h2
+    simp only [List.foldl_cons]
+    apply ih
+    · cases o with
+      | enter =>
+        simp only [ZL.step, ZL.enter]
+        split
+        · exact h1
+        · simp [h1]
+      | leave =>
+        simp only [ZL.step, ZL.leave]
+        split
+        · exact h1
+        · simp [h1]
+    · cases o with
+      | enter =>
+        simp only [ZL.step, ZL.enter]
+        split
+        · exact h2
+        · simp only; omega
+      | leave =>
+        simp only [ZL.step, ZL.leave]
+        split
+        · exact h2
+        · simp only; omega
+
 /-! ## Resolver.groupLookup: a failed leader's error stays local -/
 
 /-- **Request-local leader errors are not handed to followers.**  A caller
@@ -504,5 +554,10 @@ example : (procScenario 1 false (effectiveError .none true true) true).pc = .ter
 -- two quick replies staged, then a slow request: both are sent before it resolves
 example : (({} : Worker).run [.quick 1, .quick 2, .slow 3]).sent = [1, 2] ∧
     (({} : Worker).run [.quick 1, .quick 2, .slow 3]).held = [] := by decide
+
+-- quota 2: two admitted, two shed, both leave: the counter is back at zero and the zone is open again
+example :
+    let z := [ZOp.enter, .enter, .enter, .enter, .leave, .leave].foldl (ZL.step 2) {}
+    z.count = 0 ∧ (z.enter 2).2 = true := by decide
 
 end SdnsVerif.Props.C11
